@@ -659,6 +659,9 @@ func main() {
 		w.encodingCases(r, b, true, emit)
 	}
 	w.longRuns(r, a.Tier, emit)
+	// values by inflated JSON size; open - mutate - reopen on both stores
+	w.sizeCases(r, a.Tier, emit)
+	w.reopenCases(r, a.Tier, emit)
 	for _, s := range []string{"", "A", "QQ", "QR", "QUI", "QUJ", "Q\nQ", "QQ\r\n", "QQ==", "QUJD", "QUJDRA", "QUJDRB", "AAAAAAAA\nAAAAAAAAAB",
 		"AAAAAAA\nA", "A\nAAAAAAAAAAAAAAA", "AAAAAAAA=", "AAAA AAAA", "\n", "\r\n\r"} {
 		for _, m := range [][2]bool{{false, false}, {true, false}, {true, true}, {false, true}} {
